@@ -58,7 +58,8 @@ HoleIp(t, b) ==
     [] t = 14 -> Br(TagIPv6 \o <<49, COLON, COLON, 49, b>>)
     [] t = 15 -> Br(v4a) \o <<b>>                  \* every byte after the closing bracket
     [] t = 16 -> Br(TagIPv6 \o <<102, 102, 102, 102, COLON, COLON, 49, 57, 50, DOT, 48, DOT, 50, DOT, 49, 50, b>>)
-FamByteIp == { HoleIp(t, b) : t \in 1..16, b \in 1..255 }
+\* ('@' is left out: the vector is the domain part of x@d, and an '@' inside it would move the split)
+FamByteIp == { HoleIp(t, b) : t \in 1..16, b \in (1..255) \ {AT} }
 \* group / octet spellings away from the obvious boundaries, in the first, a middle and the last position
 Spell == { <<48>>, <<57>>, <<97>>, <<102>>, <<65>>, <<70>>, <<102, 102, 102, 102>>, <<70, 70, 70, 70>>, <<48, 48, 48, 48>>, <<49, 50, 51, 52>>,
            <<97, 98, 99, 100>>, <<65, 98, 67, 100>>, <<103>>, <<102, 102, 102, 102, 102>>, <<HYPHEN, 49>>, <<57, 57, 57, 57>>, <<48, 102>>, <<49, 48, 48, 48, 48>> }
